@@ -11,7 +11,8 @@ RULE = (
     "Cases: on-the-hour hourly frames of 4 days to 2 years (sizes weighted small) built on the local wall clock of 12 zones "
     "(incl. :30/:45 offsets and zones whose DST change is at local midnight), start/end at any hour (also on a DST day), NaN "
     "cells and blocks, absent rows, duplicated rows with different values (also duplicates whose first occurrence is empty), "
-    "zeros, with/without ghi, electric/gas, HourlyBaselineData and HourlyReportingData. Oracle: data.df.index is every real hour "
+    "zeros, with/without ghi, electric/gas, HourlyBaselineData and HourlyReportingData, timestamps as the index or in a tz-aware "
+    "`datetime` column. Oracle: data.df.index is every real hour "
     "from 00:00 of the first supplied local day to 23:00 of the last (UTC arithmetic), unique and increasing; every supplied "
     "finite cell (first occurrence of a duplicated stamp; zero electric usage = not supplied) is bit-identical in the output; "
     "interpolated_<col> is true exactly on cells not supplied and now non-NaN; nothing is NaN unless the whole column was empty; "
@@ -60,6 +61,8 @@ def cases(draw):
     c["zeros"] = draw(st.lists(st.integers(0, nh - 1), max_size=5))
     c["odd"] = draw(st.lists(st.tuples(st.integers(0, nh - 1), st.sampled_from([1e-6, 1e-300, -0.5, -1e-9, 1e9])), max_size=4))
     c["empty_col"] = draw(st.sampled_from([None, None, None, None, "ghi", "temperature"]))
+    # timestamps as the index, or in a tz-aware `datetime` column (the other documented way in)
+    c["entry"] = draw(st.sampled_from(["index", "index", "datetime_column"]))
     return c
 
 
@@ -146,10 +149,23 @@ def judge(c, rec):
     before = df.copy(deep=True)
     bidx = df.index.copy(deep=True)
     cls = em.HourlyReportingData if c["rep"] else em.HourlyBaselineData
-    d = cls(df, is_electricity_data=c["elec"])
-    o = d.df
     K = "rep" if c["rep"] else "base"
-    tags = ["class=" + K, "tz=" + c["tz"], "aim=" + c["aim"], "size=" + ("<13d" if c["ndays"] < 13 else "<61d" if c["ndays"] < 61 else ">=61d")]
+    tags = ["class=" + K, "tz=" + c["tz"], "aim=" + c["aim"], "size=" + ("<13d" if c["ndays"] < 13 else "<61d" if c["ndays"] < 61 else ">=61d"),
+            "entry=" + c.get("entry", "index")]
+    if c.get("entry") == "datetime_column":
+        df_in = df.copy()
+        df_in.insert(0, "datetime", df_in.index)
+        df_in = df_in.reset_index(drop=True)
+        in_before = df_in.copy(deep=True)
+        d = cls(df_in, is_electricity_data=c["elec"])
+        same = (list(df_in.columns) == list(in_before.columns) and df_in.index.equals(in_before.index)
+                and str(df_in["datetime"].dtype) == str(in_before["datetime"].dtype) and (df_in["datetime"].values == in_before["datetime"].values).all()
+                and np.array_equal(bits(df_in.drop(columns=["datetime"]).values), bits(in_before.drop(columns=["datetime"]).values)))
+        if not same:
+            rec.violation("input-modified/datetime-column", c, "the caller's frame was changed")
+    else:
+        d = cls(df, is_electricity_data=c["elec"])
+    o = d.df
     if not (df.index.equals(bidx) and list(df.columns) == list(before.columns) and np.array_equal(bits(df.values), bits(before.values))):
         rec.violation("input-modified", c, "the caller's frame was changed")
     exp = expected_index(before.index.min(), before.index.max(), c["tz"])
